@@ -235,6 +235,21 @@ def run(pid, tier, replay=None):
         finally:
             run_.close()
 
+    # an environment fault during a flush: the k-th SQL statement fails with "database is locked" (another process reads the file).  A flush
+    # that raises has flushed nothing and claims nothing; a flush that returns normally must have stored what it was given.
+    w_, g_, blocks_ = build(cfg, keys, universes()["clean"], tag=b"fault")
+    for k_fault in range(1, 7):
+        run_ = store_drv.StoreRun(w_, g_)
+        try:
+            run_.buffer(blocks_[1])
+            run_.buffer(blocks_[2])
+            run_.flush(honest=False, fault_at=k_fault)       # not an honest flush: the environment makes it fail
+            tid += 1
+            traces.append(run_.trace(tid))
+            info[tid] = ("clean, SQL statement %d of the flush fails" % k_fault, "2 blocks")
+            chk.case(("dbfault", k_fault), nontrivial=True)
+        finally:
+            run_.close()
     chk.extra["concurrent_hand_overs_during_a_flush"] = info.pop("concurrent_hand_overs", 0)
     if lock_traces:
         vl, rlt = tracecheck.run("TraceStoreLock", lock_traces, {"Writers": {1, 2}, "Blocks": set(), "LockScope": "whole", "MaxFlushes": 99, "Prop": pid},
